@@ -138,6 +138,7 @@ pub struct Cfg {
     pub big_ints: bool,
     pub type_level: bool,   // type-level redexes, aliases and conditionals in annotations
     pub recursion: bool,    // recursive and mutually recursive function definitions
+    pub trap: bool,         // plant one ill-typed use guarded only by decoy definitions (the program must be rejected)
 }
 
 pub struct ProgGen<'a> {
@@ -148,6 +149,7 @@ pub struct ProgGen<'a> {
     budget: i64,
     pub features: Vec<&'static str>,
     pub planted_effects: usize,
+    pub traps_planted: usize,
 }
 
 const NAMES: [&str; 16] = ["x", "y", "z", "n", "m", "k", "f", "g", "h", "p", "q", "acc", "é", "val", "iff", "int2"];
@@ -155,7 +157,7 @@ const NAMES: [&str; 16] = ["x", "y", "z", "n", "m", "k", "f", "g", "h", "p", "q"
 impl<'a> ProgGen<'a> {
     pub fn new(r: &'a mut Rng, cfg: Cfg) -> ProgGen<'a> {
         let budget = cfg.size as i64;
-        ProgGen { r, cfg, ctx: vec![], fresh: 0, budget, features: vec![], planted_effects: 0 }
+        ProgGen { r, cfg, ctx: vec![], fresh: 0, budget, features: vec![], planted_effects: 0, traps_planted: 0 }
     }
 
     fn feature(&mut self, f: &'static str) {
@@ -393,6 +395,14 @@ impl<'a> ProgGen<'a> {
             return self.leaf(t);
         }
         let d = depth - 1;
+        if self.cfg.trap && self.traps_planted == 0 && t.is_ground() && self.r.chance(1, 3) {
+            // a value of the other ground type, in a group that also defines (unused) aliases of
+            // the expected type: only a checker that confuses the members of a group accepts it
+            self.traps_planted += 1;
+            self.feature("trap:wrong-type-behind-decoy-definitions");
+            let other = if *t == GT::Int { GT::Bool } else { GT::Int };
+            return H::Paren(hb(self.alias_typed_group(&other, d, Some(t.clone()))));
+        }
         match self.r.below(10) {
             0 => {
                 // conditional
@@ -546,25 +556,41 @@ impl<'a> ProgGen<'a> {
     //   v : ta = <value>; ta : type = tb; tb : type = <type>; [other definitions]; v
     // so that the type of the body mentions the group's variables (the group-type reconstruction
     // of the checker has to substitute the definitions into it).
-    fn alias_typed_group(&mut self, t: &GT, d: usize) -> H {
+    fn alias_typed_group(&mut self, t: &GT, d: usize, decoy: Option<GT>) -> H {
         self.feature("body-typed-by-group-alias-chain");
         let chain = 1 + self.r.usize(3);
-        let v = self.fresh_name("aliased");
-        self.ctx.push(Entry { name: v.clone(), ty: t.clone(), alias_of: None, usable: false, recursive_fn: false });
+        let mark = self.ctx.len();
+        // every name of the group is reserved before anything nested is generated
+        let mut reserve = |g: &mut Self, hint: &str, ty: GT, alias_of: Option<GT>| -> String {
+            let n = g.fresh_name(hint);
+            g.ctx.push(Entry { name: n.clone(), ty, alias_of, usable: false, recursive_fn: false });
+            n
+        };
+        let v = reserve(self, if decoy.is_some() { "trapped" } else { "aliased" }, t.clone(), None);
         let mut alias_names = vec![];
         for _ in 0..chain {
-            let n = self.fresh_name("t");
-            self.ctx.push(Entry { name: n.clone(), ty: GT::Type, alias_of: Some(t.clone()), usable: false, recursive_fn: false });
-            alias_names.push(n);
+            alias_names.push(reserve(self, "t", GT::Type, Some(t.clone())));
         }
-        // optional extra definition after the chain; its name stays reserved until the group is complete
+        let decoy_ty = match decoy {
+            Some(t) => Some(t),
+            None if self.r.chance(1, 2) => Some(if *t == GT::Int { GT::Bool } else { GT::Int }),
+            None => None,
+        };
+        let mut decoy_names = vec![];
+        if decoy_ty.is_some() {
+            for _ in 0..1 + self.r.usize(2) {
+                decoy_names.push(reserve(self, "decoy", GT::Type, None));
+            }
+        }
+        let inc_names = if *t == GT::Int && self.r.chance(1, 2) { Some((reserve(self, "inc", GT::Opaque, None), reserve(self, "y", GT::Int, None))) } else { None };
+        let univ_name = if self.r.chance(1, 4) { Some(reserve(self, "univ", GT::Type, None)) } else { None };
+        // optional extra definition after the chain
         let extra = if self.r.chance(1, 2) {
-            let n = self.fresh_name("");
             let ty = self.random_type(1);
-            self.ctx.push(Entry { name: n.clone(), ty: ty.clone(), alias_of: None, usable: false, recursive_fn: false });
+            let n = reserve(self, "", ty.clone(), None);
             let ann = self.annotation(&ty);
             let def = self.term(&ty, d.min(2));
-            Some((n, ty, ann, def))
+            Some((n, ann, def))
         } else {
             None
         };
@@ -585,26 +611,22 @@ impl<'a> ProgGen<'a> {
                 defs.push((alias_names[i].clone(), ann, def));
             }
         }
-        let extra_reserved = extra.is_some();
-        if let Some((n, _, ann, def)) = extra {
+        if let Some((n, ann, def)) = extra {
             defs.push((n, ann, def));
         }
         // a function whose parameter is typed by the first alias (unfolded one binder deeper),
         // applied to the aliased value
         let mut body = H::Var(v.clone());
-        if *t == GT::Int && self.r.chance(1, 2) {
+        if let Some((f, y)) = inc_names {
             self.feature("alias-unfolded-under-binder");
-            let f = self.fresh_name("inc");
-            let y = self.fresh_name("y");
             let a0 = H::Var(alias_names[0].clone());
             let ann = if self.cfg.mode == Mode::Inferred && self.r.chance(1, 2) { None } else { Some(hb(H::Pi("_".into(), false, hb(a0.clone()), hb(H::Int)))) };
             defs.push((f.clone(), ann, H::Lam(y.clone(), false, Some(hb(a0)), hb(H::Bin(Op::Add, hb(H::Var(y)), hb(H::lit(1)))))));
             body = H::App(hb(H::Var(f)), hb(H::Var(v.clone())));
         }
         // sometimes the aliases are typed by an alias of the universe itself
-        if self.r.chance(1, 4) {
+        if let Some(u) = univ_name {
             self.feature("alias-of-the-universe");
-            let u = self.fresh_name("univ");
             for d in defs.iter_mut().skip(1).take(chain) {
                 if d.1.is_some() {
                     d.1 = Some(hb(H::Var(u.clone())));
@@ -612,12 +634,17 @@ impl<'a> ProgGen<'a> {
             }
             defs.insert(1, (u, Some(hb(H::Type)), H::Type));
         }
-        for _ in 0..=chain {
-            self.ctx.pop();
+        // decoys: unused aliases of another type, anywhere after the first definition
+        if let Some(dt) = decoy_ty {
+            self.feature("decoy-alias-in-group");
+            let dh = type_to_h(&dt);
+            for n in decoy_names {
+                let at = 1 + self.r.usize(defs.len());
+                let ann = if self.cfg.mode == Mode::Inferred && self.r.chance(1, 2) { None } else { Some(hb(H::Type)) };
+                defs.insert(at, (n, ann, dh.clone()));
+            }
         }
-        if extra_reserved {
-            self.ctx.pop();
-        }
+        self.ctx.truncate(mark);
         let mut h = body;
         for (nm, ann, def) in defs.into_iter().rev() {
             h = H::Let(nm, ann, hb(def), hb(h));
@@ -628,7 +655,7 @@ impl<'a> ProgGen<'a> {
     pub fn group(&mut self, t: &GT, d: usize) -> H {
         let inhabited = !matches!(t, GT::TVar(_)) || self.candidates(t).iter().any(|c| c.1.is_empty());
         if self.cfg.type_level && !matches!(t, GT::Type | GT::Forall(..) | GT::Dep(_)) && inhabited && self.r.chance(1, 8) {
-            return self.alias_typed_group(t, d);
+            return self.alias_typed_group(t, d, None);
         }
         self.feature("definition-group");
         #[derive(Clone)]
@@ -642,6 +669,7 @@ impl<'a> ProgGen<'a> {
             DepCoerce,
             Alias(GT),
             AliasedValue(usize), // value whose annotation is the alias defined at that (possibly later) index
+            Placeholder(GT),     // `_ = <term>`: occupies a slot of the group, binds nothing
         }
         let n = 1 + self.r.usize(4);
         let mut kinds: Vec<Kind> = vec![];
@@ -671,6 +699,10 @@ impl<'a> ProgGen<'a> {
                     kinds.push(Kind::AliasedValue(at + 1));
                     kinds.push(Kind::Alias(ty));
                 }
+                9 => {
+                    let ty = self.random_type(1);
+                    kinds.push(Kind::Placeholder(ty));
+                }
                 _ => {
                     let ty = self.random_type(2);
                     kinds.push(Kind::Plain(ty));
@@ -678,12 +710,23 @@ impl<'a> ProgGen<'a> {
             }
         }
         let n = kinds.len();
+        // a recursive function may mention a later ground-typed definition of the group
+        let mut late_ref: Vec<Option<usize>> = vec![None; n];
+        for i in 0..n {
+            if matches!(kinds[i], Kind::RecFn) && self.r.chance(1, 2) {
+                let later: Vec<usize> = (i + 1..n).filter(|j| matches!(&kinds[*j], Kind::Plain(GT::Int) | Kind::Plain(GT::Bool))).collect();
+                if !later.is_empty() {
+                    late_ref[i] = Some(later[self.r.usize(later.len())]);
+                }
+            }
+        }
         // names and types
         let mut names = vec![];
         let mut types = vec![];
         for k in &kinds {
             let (hint, ty) = match k {
                 Kind::Plain(t) => ("", t.clone()),
+                Kind::Placeholder(t) => ("_", t.clone()),
                 Kind::RecFn => ("rec", GT::arrow(GT::Int, GT::Int)),
                 Kind::MutualA => ("even", GT::arrow(GT::Int, GT::Bool)),
                 Kind::MutualB => ("odd", GT::arrow(GT::Int, GT::Bool)),
@@ -712,7 +755,7 @@ impl<'a> ProgGen<'a> {
                 self.fresh += 1;
                 format!("{a}{}", self.fresh)
             });
-            let name = self.fresh_name(hint);
+            let name = if hint == "_" { "_".to_owned() } else { self.fresh_name(hint) };
             self.ctx.push(Entry { name: name.clone(), ty: ty.clone(), alias_of: None, usable: false, recursive_fn: matches!(k, Kind::RecFn | Kind::MutualA | Kind::MutualB) });
             names.push(name);
             types.push(ty);
@@ -744,14 +787,23 @@ impl<'a> ProgGen<'a> {
             };
             // definition body
             for j in 0..n {
-                self.ctx[base + j].usable = if is_fn[i] { is_fn[j] } else { j < i || is_fn[j] };
+                // a function that mentions a later non-function definition is off limits to other
+                // functions, and to computed definitions up to that position
+                self.ctx[base + j].usable = if is_fn[i] { is_fn[j] && late_ref[j].is_none() } else { j < i || (is_fn[j] && late_ref[j].map_or(true, |l| l < i)) };
                 if matches!(kinds[j], Kind::Alias(_)) && j > i && !is_fn[i] {
                     // a later alias is a value definition: available to annotations inside, but keep it simple
+                    self.ctx[base + j].usable = false;
+                }
+                if names[j] == "_" || (j < i && is_fn[j] && late_ref[j].map_or(false, |l| l >= i)) {
                     self.ctx[base + j].usable = false;
                 }
             }
             let def = match &kinds[i] {
                 Kind::Plain(t) => self.term(t, d),
+                Kind::Placeholder(t) => {
+                    self.feature("placeholder-definition-in-group");
+                    self.term(t, d.min(2))
+                }
                 Kind::Alias(t) => self.ty_h(&t.clone()),
                 Kind::AliasedValue(_) => {
                     let t = types[i].clone();
@@ -765,7 +817,12 @@ impl<'a> ProgGen<'a> {
                         self.ctx[base + j].usable = false;
                     }
                     self.ctx.push(Entry { name: p.clone(), ty: GT::Int, alias_of: None, usable: true, recursive_fn: false });
-                    let base_case = self.term(&GT::Int, d.min(1));
+                    let mut base_case = self.term(&GT::Int, d.min(1));
+                    if let Some(l) = late_ref[i] {
+                        self.feature("recursive-function-mentions-later-definition");
+                        let g = H::Var(names[l].clone());
+                        base_case = if types[l] == GT::Int { H::Bin(Op::Add, hb(g), hb(base_case)) } else { H::If(hb(g), hb(base_case), hb(H::lit(self.r.below(50) as i64))) };
+                    }
                     let step_op = [Op::Add, Op::Mul, Op::Sub][self.r.usize(3)];
                     let extra = self.term(&GT::Int, d.min(1));
                     self.ctx.pop();
@@ -809,7 +866,7 @@ impl<'a> ProgGen<'a> {
             defs.push((names[i].clone(), ann, def));
         }
         for j in 0..n {
-            self.ctx[base + j].usable = true;
+            self.ctx[base + j].usable = names[j] != "_";
         }
         let mut body = self.term(t, d);
         // never a group directly in body position (it would join this group)
@@ -929,16 +986,40 @@ pub fn gen_program_of(r: &mut Rng, mode: Mode, ty: &GT) -> Program {
 
 pub fn gen_program_with(r: &mut Rng, mode: Mode, ty: &GT, recursion: bool) -> Program {
     let size = 4 + r.usize(30);
-    let cfg = Cfg { mode, size, effects: false, big_ints: r.chance(1, 3), type_level: r.chance(2, 3), recursion };
+    let cfg = Cfg { mode, size, effects: false, big_ints: r.chance(1, 3), type_level: r.chance(2, 3), recursion, trap: false };
     let depth = 2 + r.usize(3);
     let mut g = ProgGen::new(r, cfg);
     let h = if g.r.chance(1, 2) { g.group(ty, depth) } else { g.term(ty, depth) };
     Program { h, ty: ty.clone(), mode, features: g.features.clone() }
 }
 
+// A program with exactly one planted type error (see Cfg::trap); None if no trap was planted.
+pub fn gen_trap_program(r: &mut Rng, mode: Mode) -> Option<Program> {
+    let size = 8 + r.usize(30);
+    let cfg = Cfg { mode, size, effects: false, big_ints: false, type_level: true, recursion: r.chance(1, 2), trap: true };
+    let depth = 3 + r.usize(3);
+    let mut g = ProgGen::new(r, cfg);
+    let ty = if g.r.chance(1, 2) { GT::Int } else { GT::Bool };
+    let h = if g.r.chance(1, 2) { g.group(&ty, depth) } else { g.term(&ty, depth) };
+    // the trap may have been generated inside a subterm that was discarded later
+    let mut present = false;
+    crate::props::c08::walk(&h, &mut |x| {
+        if let H::Let(n, ..) = x {
+            present |= n.starts_with("trapped");
+        }
+    });
+    if g.traps_planted == 0 || !present {
+        return None;
+    }
+    // the result is used, so that a trap at the top is under an expectation too
+    let h = if ty == GT::Int { H::Bin(Op::Add, hb(H::Paren(hb(h))), hb(H::lit(1))) } else { H::If(hb(H::Paren(hb(h))), hb(H::lit(1)), hb(H::lit(2))) };
+    let ty = GT::Int;
+    Some(Program { h, ty, mode, features: g.features.clone() })
+}
+
 pub fn gen_program(r: &mut Rng, mode: Mode) -> Program {
     let size = if r.chance(1, 8) { 40 + r.usize(80) } else { 4 + r.usize(30) };
-    let cfg = Cfg { mode, size, effects: false, big_ints: r.chance(1, 3), type_level: r.chance(2, 3), recursion: true };
+    let cfg = Cfg { mode, size, effects: false, big_ints: r.chance(1, 3), type_level: r.chance(2, 3), recursion: true, trap: false };
     let depth = 2 + r.usize(4);
     let mut g = ProgGen::new(r, cfg);
     let ty = match g.r.below(10) {
